@@ -105,6 +105,10 @@ type RecStore struct {
 	Crashed  bool
 	// FailLoad makes Load return an error.
 	FailLoad bool
+	// OnLoad, when set, is told about every Load (with the caller's context);
+	// OnLoaded when that Load returns.
+	OnLoad   func(ctx *core.Context, loc string)
+	OnLoaded func(ctx *core.Context, loc string)
 }
 
 func NewRecStore(inner core.Storage) *RecStore {
@@ -144,11 +148,19 @@ func (r *RecStore) Load(ctx *core.Context, loc string) ([]core.Pair, error) {
 	r.mu.Lock()
 	r.Loads[loc]++
 	fl := r.FailLoad
+	on := r.OnLoad
 	r.mu.Unlock()
+	if on != nil {
+		on(ctx, loc)
+	}
 	if fl {
 		return nil, ErrInjected
 	}
-	return r.Inner.Load(ctx, loc)
+	ps, err := r.Inner.Load(ctx, loc)
+	if done := r.OnLoaded; done != nil {
+		done(ctx, loc)
+	}
+	return ps, err
 }
 
 func (r *RecStore) Add(ctx *core.Context, loc string, p *core.Pair) error {
